@@ -82,7 +82,8 @@ func HarnessC20Delay() {
 			ctxDelay[i] = For(time.Duration(vrt.Int(p+"for", 0, 1<<40)))
 			m.SetContext(WithContext(context.Background(), ctxDelay[i]))
 		case 3:
-			ctxDelay[i] = Until(time.Now().Add(time.Duration(vrt.Int(p+"until", -(1<<40), 1<<40))))
+			// an instant given in a zone other than UTC (the stamp must denote the same instant)
+			ctxDelay[i] = Until(time.Now().Add(time.Duration(vrt.Int(p+"until", -(1<<40), 1<<40))).In(time.FixedZone("east", 2*60*60)))
 			m.SetContext(WithContext(context.Background(), ctxDelay[i]))
 		case 4:
 			ctxDelay[i] = Delay{} // "a zero delay" is still a delay chosen by the caller
